@@ -54,9 +54,12 @@ CLAIMED = {
              "deadline terminates with the recorded event; idle termination at the idle deadline, which only accepted packets move. "
              "Tie: the model is replayed (Float, bit-exact deadlines) against real client/server pairs after EVERY API call over "
              "small-scope plans x 6 handshake stages and random scripts (close at arbitrary points, fatal frames in every space, "
-             "peer closes, blackouts, late timers); an independent oracle checks the property on the public trace.",
-        note="Trusted: Lean kernel; standard axioms; harness/impl_close.py classification of receive_datagram outcomes; PTO / ack / "
-             "loss / pacing deadlines are inputs of the model (observed values); OrdLaws (lt->le, refl, trans on finite doubles) for "
+             "peer closes, blackouts, late timers, replayed duplicates); an independent oracle checks the property on the public trace (idle bound = last NEW packet, "
+             "identified on the wire, + negotiated idle; closing = 3 x base PTO computed from the RTT fields). AQ.Props.C09Timers: the product of this "
+             "model with the recovery model (C08/C01Loss) - a live connection has a timer, what firing it guarantees, closing terminates - with the loss "
+             "deadline and PTO derived rather than input, tied by a recovery tap on the same traces (bit-exact glue at every get_timer / _close_begin).",
+        note="Trusted: Lean kernel; standard axioms; harness/impl_close.py classification of receive_datagram outcomes; ack / pacing / idle-timeout values are inputs "
+             "of the model (observed values), loss deadline and PTO are derived in C09Timers; OrdLaws (lt->le, refl, trans on finite doubles) for "
              "timer_defined; usage hypothesis: a client is fed no datagram before connect(); assumes the close frame always fits (C16).",
         technique="Lean 4 state-machine invariants by induction over API-call sequences; per-call differential correspondence",
         design="DESIGN.md §5 C09",
@@ -147,9 +150,11 @@ CLAIMED = {
              "authenticated received numbers, every number on the wire was received for any max_size truncation, the ack deadline is "
              "armed on arrival and survives, get_timer <= every armed ack deadline, ack_timely for 1-RTT under explicit side "
              "conditions (keys valid, packet/frame accepted, ranges fit, total order on times), Initial/Handshake never start a "
-             "packet without the pending ACK. Tie: real connections (sim + inject: all arrival orders/gaps/duplicates per space, "
+             "packet without the pending ACK; run-level statements on executable monitors (AQ.Model.AckSpec): ack_timely_run, ack_next_tx_run, "
+             "ack_sound_run (soundness unconditional), ack_of_ack_prunes_exactly. Tie: real connections (sim + inject: all arrival orders/gaps/duplicates per space, "
              "loss of ACKs and ACK-of-ACK carriers) vs the model after each step; wire oracle: ACK ranges subset of authenticated "
-             "numbers, ACK within the advertised delay when timers are honoured.",
+             "numbers, ACK within the advertised delay when timers are honoured; ack-elicitation decided by the harness from the "
+             "plaintext frames; stream-lifecycle frames incl. discarded streams; phase handshake-complete-not-confirmed, strictly timer-driven.",
         note="Trusted: Lean kernel; standard axioms; harness/impl_ack.py, ack_scen.py; codec round trip of ACK frames from C17; "
              "'next transmission' read for open connections (closing packets carry no ACK); truncation keeps the newest ranges.",
         technique="Lean 4 invariants over op sequences; connection-level correspondence and wire oracle",
